@@ -180,6 +180,27 @@ func sdPuml(start []string, group string, bb map[string]string) func(m *sysl.Mod
 	}
 }
 
+// Label formats that print every variable the labelers offer (patterns, arguments, controls ...).
+const (
+	sdFullEpFmt  = "%(epname)%(patterns? [%(patterns)])%(args? (%(args)))%(controls? {%(controls)})%(needs_int? *)%(human? H)"
+	sdFullAppFmt = "%(appname)%(controls? {%(controls)})"
+)
+
+// sdPumlFmt is sdPuml with explicit endpoint and application label formats.
+func sdPumlFmt(start []string, group, epfmt, appfmt string) func(m *sysl.Module) ([]byte, error) {
+	return func(m *sysl.Module) ([]byte, error) {
+		p := &cmdutils.CmdContextParamSeqgen{
+			EndpointFormat: epfmt, AppFormat: appfmt, Output: "out.puml",
+			EndpointsFlag: append([]string(nil), start...), BlackboxesFlag: map[string]string{}, Group: group,
+		}
+		out, err := sequencediagram.DoConstructSequenceDiagrams(p, m, quietLogger())
+		if err != nil {
+			return nil, err
+		}
+		return joinFiles(out), nil
+	}
+}
+
 // sdProject is `sysl sd -a <project> -o "%(epname).puml"`: one diagram per endpoint of the
 // project application, start points taken from its call statements.
 func sdProject(project, group string) func(m *sysl.Module) ([]byte, error) {
